@@ -53,7 +53,8 @@ def h5_case(draw):
             "unit": draw(st.sampled_from(gen.FIELD_UNITS)), "dtype": draw(st.sampled_from(["float", "float", "complex", "int"])),
             "seed": draw(st.integers(0, 2**31)), "mask": draw(gen.mask_spec(nd)), "ext": draw(st.sampled_from([".h5", ".hdf5"])),
             "same_path": draw(st.booleans()), "read_twice": draw(st.integers(0, 3)) == 0,
-            "nonfinite": draw(st.integers(0, 3)) == 0}
+            "nonfinite": draw(st.integers(0, 3)) == 0,
+            "value_mode": draw(st.sampled_from(["plain", "plain", "plain", "zero-imag", "tiny-imag", "signed-zeros"]))}
 
 
 def build(case):
@@ -79,7 +80,14 @@ def build(case):
     mesh = df.Mesh(region=region, n=n, bc=case["bc"], subregions=sr)
     dt = {"float": None, "complex": np.complex128, "int": np.int64}[case["dtype"]]
     arr = gen.make_array(case["seed"], (*n, case["k"]), "int", case["dtype"])
-    if case.get("nonfinite") and case["dtype"] in ("float", "complex"):
+    mode = case.get("value_mode", "plain")
+    if mode == "zero-imag" and case["dtype"] == "complex":
+        arr = arr.real + 0j  # complex storage, imaginary parts exactly zero: stays complex
+    elif mode == "tiny-imag" and case["dtype"] == "complex":
+        arr = arr.real + 1e-15j * arr.imag
+    elif mode == "signed-zeros" and case["dtype"] in ("float", "complex"):
+        arr = np.where(arr.real > 0, 0.0, -0.0) + (0j if case["dtype"] == "complex" else 0.0)  # only +0.0 and -0.0
+    if case.get("nonfinite") and case["dtype"] in ("float", "complex") and mode == "plain":
         # NaN, infinities and negative zero are values like any other: bit-identical after the round trip
         flat = arr.reshape(-1)
         for j, v in enumerate((float("nan"), float("inf"), float("-inf"), -0.0)):
